@@ -37,7 +37,7 @@ CHECKS = {
          "Exploration: the ordered sequence of (marker, arguments) host calls of each generated program equals the sequence obtained by left-to-right, short-circuit, guard-order evaluation in the reference interpreter.",
          "Trusts the reference interpreter's evaluation order, written from the property statement.",
          "DESIGN.md §4 C08"),
- "C11": ("model-based stateful testing over the embedding API: histories of build-runtime / compile / get / clone / call / drop (also on another thread) operations vs a liveness model over drop-tracked values stored in script constants, registered constants and closure captures",
+ "C11": ("model-based stateful testing over the embedding API: histories of build-runtime / compile / get / clone / call / drop (also on another thread) operations vs a liveness model over drop-tracked values stored in script constants (incl. a zero-sized one), registered constants and closure captures (incl. two closures of one Rust type)",
          "Exploration: after every step of a generated history each call must return the model's value for its script version and runtime, and per tag the tracked values must be alive exactly while something refers to them; at the end everything must have been dropped exactly once.",
          "Use-after-free of still-mapped JIT memory can go unnoticed (worker isolation catches crashes only); liveness tracked per tag.",
          "DESIGN.md §4 C11"),
